@@ -14,9 +14,22 @@ TECHNIQUE = "Lean 4 proof over an extracted fault/effect model + deterministic t
 RULE = ("one case = one generation run with a timeout delivered before the n-th line event of the k-th time_limit activation; sites are the distinct "
         "(function, with-line, line about to run, previous line) tuples seen in a recording run; non-trivial = the fault actually fired; distinct by site and activation")
 EXPLANATION = LEVEL_TEXT
-TRUSTED = ["harness/extractors/fault.py (block/handler/effect extraction)", "CPython delivers the Python-level signal handler before the next line of the interrupted frame",
+TRUSTED = ["harness/extractors/fault.py (block/handler/effect extraction: may-analysis of the block bodies, must-analysis of what the handlers undo)",
+           "harness/extractors/_norm_c15.py (AST normalisations applied before extraction, each effect-preserving for all inputs: N1 canonical names of the "
+           "three local lists from the make_changes call; N2 tuple/chained assignment = separate stores; N3 tuple alias of names substituted; N4 loops over "
+           "literal tuples / zip of literal tuples unrolled; N5 one level of inlining of straight-line state-changing helpers (module level or closure), "
+           "anything else about such a helper is an extraction error; N6 append/extend/insert/`+=`/`L = L + ..` are appends; N7 `del L[n:]`, `L[n:] = []`, "
+           "`while len(L) > n: L.pop()` are cuts; N8 min(len(..),..) / min(len(r) for r in (..)) / min(map(len, (..))) is the common length)",
+           "library and builtin calls inside the blocks do not change the tracked lists handed to them as elements (`str(sym_fun[i])`, `all_fun.index(str_fun[i])`); "
+           "a tracked list handed over whole to anything but a reader builtin or an inlined helper is an extraction error",
+           "CPython delivers the Python-level signal handler before the next line of the interrupted frame",
            "faults are injected at line granularity in simplifier.py frames only; interruption points inside sympy callee frames are covered by the model (any statement may fail anywhere) but not injected"]
 ASSUMPTIONS = ["soundness of completed (non-interrupted) rewrite steps is C03's hypothesis StepSound, sampled by the oracle"]
+# When the translator cannot read today's blocks the committed table stands in as a hand-written fault model; what ties it to
+# the code is then the exhaustive dynamic oracle below, which does not use the table at all: a genuine SIGALRM at every distinct
+# (block, statement) site of real generation runs (all sites, thorough plan) + completion + the C03 library oracle.
+FALLBACK = {'Fault': 'genuine SIGALRM injected at every distinct (block, statement) site of real generation runs (thorough plan: every site, two activations, '
+                     'pairs of faults), generation must complete and the resulting library must pass the C03 oracle'}
 MODELLED = ["simplifier.py:sympy_simplify", "simplifier.py:expand_or_factor", "simplifier.py:check_results", "simplifier.py:make_changes"]
 
 BASES = {"core_maths": [["x", "a"], ["inv"], ["+", "*", "-", "/", "pow"]],
@@ -41,6 +54,15 @@ def _run(ctx, copy, tag, basis, compl, spec, timeout=600):
     return res
 
 
+def _deliverable(src, line):
+    """False for `try:` / `else:` / `finally:` / `except ..:` lines: no instruction of the interrupted frame runs on them, so a real
+    signal is never handled "at" them (CPython runs signal handlers at calls and backward jumps); an exception raised from the
+    line-event callback there escapes every enclosing handler of the frame (observed on the unchanged tree: `try:` at simplifier.py:443),
+    which is an artefact of the injection, not a behaviour of ESR."""
+    txt = src[line - 1].strip() if 0 < line <= len(src) else ""
+    return not (txt in ("try:", "else:", "finally:") or txt.startswith("except"))
+
+
 def _sites(rec):
     """distinct (fn, with_line, line, prev_line) -> list of (k, n)"""
     sites = {}
@@ -48,8 +70,7 @@ def _sites(rec):
     for a in rec["log"]:
         prev = a["with_line"]
         for n, line in enumerate(a["lines"], start=1):
-            txt = src[line - 1].strip() if 0 < line <= len(src) else ""
-            if txt in ("try:", "else:", "finally:") or txt.startswith("except"):
+            if not _deliverable(src, line):
                 # no instruction of the interrupted frame runs on these lines: a signal cannot be delivered "at" them
                 prev = line
                 continue
@@ -91,6 +112,12 @@ def run(ctx):
              ("ext_maths", 4, 1, 60, True)])
     jobs = []
     nsites = {}
+    try:
+        # statements that record something, as the translator reads them (also inside helpers, whatever the spelling)
+        from extractors import fault as _fault
+        mutl = _fault.mutation_lines(copy)
+    except Exception:
+        mutl = set()
     for basisname, compl, per_site, max_sites, prio_only in plan:
         rec = _run(ctx, copy, "rec_%s_%d" % (basisname, compl), BASES[basisname], compl, dict(mode="record"))
         if rec.get("status") != "ok":
@@ -101,7 +128,8 @@ def run(ctx):
         sites = _sites(rec)
         nsites["%s:%d" % (basisname, compl)] = dict(activations=rec["activations"], sites=len(sites))
         # priority: a fault right after a statement that records something (append) or right before the next one
-        prio = [s_ for s_ in sorted(sites) if ".append(" in src[s_[3] - 1] or ".append(" in src[s_[2] - 1] or "inv_subs_fun[i] =" in src[s_[3] - 1]]
+        prio = [s_ for s_ in sorted(sites) if ".append(" in src[s_[3] - 1] or ".append(" in src[s_[2] - 1] or "inv_subs_fun[i] =" in src[s_[3] - 1]
+                or s_[3] in mutl or s_[2] in mutl]
         rest = [s_ for s_ in sorted(sites) if s_ not in set(prio)]
         ctx.rng.shuffle(rest)
         if max_sites is not None:
@@ -112,10 +140,12 @@ def run(ctx):
                 jobs.append((basisname, compl, [[k, n]]))
         if deep:
             # pairs of faults in different activations
-            allacts = [(a["k"], len(a["lines"])) for a in rec["log"] if a["lines"]]
-            for _ in range(40):
-                (k1, l1), (k2, l2) = ctx.rng.sample(allacts, 2)
-                jobs.append((basisname, compl, [[k1, ctx.rng.randint(1, l1)], [k2, ctx.rng.randint(1, l2)]]))
+            # (only line events at which a signal can really be handled, as for the single faults: see _deliverable)
+            allacts = [(a["k"], [n for n, line in enumerate(a["lines"], start=1) if _deliverable(src, line)]) for a in rec["log"]]
+            allacts = [(k, ns) for k, ns in allacts if ns]
+            for _ in range(40 if len(allacts) >= 2 else 0):
+                (k1, n1), (k2, n2) = ctx.rng.sample(allacts, 2)
+                jobs.append((basisname, compl, [[k1, ctx.rng.choice(n1)], [k2, ctx.rng.choice(n2)]]))
     ctx.extra["sites"] = nsites
     fired_sites = set()
     with cf.ThreadPoolExecutor(max_workers=12) as ex:
